@@ -212,7 +212,9 @@ def _gen_service(rng):
     for _ in range(rng.randint(0, 6)):
         r = rng.random()
         if r < 0.4:
-            script.append(["sleep", rng.choice([0.0005, sleep, mn, mx * 2, 5.0])])
+            # (bounded by 1500 loop periods: a 20 s pause of a loop that ticks every millisecond is 20 000 iterations and ran the
+            #  simulated scheduler into its decision cap, which then looked like a hang - thorough soak, seed 3)
+            script.append(["sleep", min(rng.choice([0.0005, sleep, mn, mx * 2, 5.0]), sleep * 1500)])
         elif r < 0.55:
             script.append(["wake"])
         elif r < 0.65:
